@@ -1,7 +1,14 @@
 (* C08: accounting of refused reservations in M-BE, for every op list.
    denied = reported through the notifier + lost with destroyed contexts + still pending in the
    per-thread failure counters; and nothing is lost when the counters are reported right before a
-   context is removed (F9). *)
+   context is removed (F9).
+   M-BE increments failc in ONE frontend step (fstep, refused reservation) and reads-and-resets it in ONE
+   backend step (report_failures). That granularity is justified by Backend/FailCounterProofs.v: with
+   increment_failure_counter one atomic read-modify-write and get_and_reset_failure_counter one atomic
+   exchange (facts tcm_failc_inc_atomic / tcm_failc_reset_atomic read from the source, TieC08.v), every
+   interleaving of the micro-steps of the real protocol is a run of the atomic machine used here
+   (fc_refines_atomic) and is exact (fc_exact); with a split increment or a split reset it is not
+   (fc_split_inc_refuted, fc_split_reset_refuted). *)
 From Coq Require Import List NArith Arith Bool Lia.
 From Quill Require Import Queue.BQDefs Backend.BEDefs Backend.BEInv.
 Import ListNotations.
